@@ -107,4 +107,49 @@ theorem udpContact_tsBad (c : Cache) (e : Sig) (src : Tag) (now : Nat) (s : UdpS
         · rfl
     simp [UdpUnit.effective, this]
 
+theorem unmarshalOk_tsOk (m : Md) (h : unmarshalOk m = true) : m.tsOk = true := by
+  unfold unmarshalOk at h
+  split at h
+  · simp at h; exact h.1
+  · split at h
+    · simp at h; exact h.1
+    · exact absurd h (by decide)
+
+/-- a first segment that was accepted carried its whole header, had an acceptable timestamp, and was
+    recorded in the cache by the very consultation that let it pass -/
+theorem tcpFirstContact_accepted (c : Cache) (e : Sig) (now : Nat) (u : TcpUnit)
+    (h : (tcpFirstContact c e now u).2.accepted ≠ []) :
+    firstReadLen ≤ u.avail ∧ u.md.tsOk = true ∧
+    (tcpFirstContact c e now u).1 = (consult c e emptyTag now).1 ∧ (consult c e emptyTag now).2 = false := by
+  unfold tcpFirstContact at h ⊢
+  by_cases ha : u.avail < firstReadLen
+  · exfalso
+    simp only [ha, if_true] at h
+    have hv : u.validOpen = false := by simp [TcpUnit.validOpen, Nat.not_le.mpr ha]
+    exact h (tcpStep_quiet {} u quiet_init hv).2.2.1
+  · simp only [ha, if_false] at h ⊢
+    cases hv : ({ u with dup := (consult c e emptyTag now).2 } : TcpUnit).validOpen with
+    | false => exact absurd (tcpStep_quiet {} _ quiet_init hv).2.2.1 h
+    | true =>
+      simp only [TcpUnit.validOpen, Bool.and_eq_true, decide_eq_true_eq, Bool.not_eq_true'] at hv
+      obtain ⟨⟨⟨⟨⟨⟨_, _⟩, hdup⟩, hum⟩, _⟩, _⟩, _⟩ := hv
+      exact ⟨Nat.le_of_not_lt ha, unmarshalOk_tsOk _ hum, trivial, hdup⟩
+
+/-- a datagram that changed the state of the shared socket was long enough, had an acceptable
+    timestamp, and was recorded by the consultation that let it pass -/
+theorem udpContact_effective (c : Cache) (e : Sig) (src : Tag) (now : Nat) (s : UdpSt) (u : UdpUnit)
+    (h : (udpContact c e src now s u).2 ≠ s) :
+    packetHeaderLen ≤ u.len ∧ u.md.tsOk = true ∧
+    (udpContact c e src now s u).1 = (consult c e src now).1 ∧ (consult c e src now).2 = false := by
+  unfold udpContact at h ⊢
+  by_cases ha : u.len < packetHeaderLen
+  · simp [ha] at h
+  · simp only [ha, if_false] at h ⊢
+    cases hv : ({ u with dupOther := (consult c e src now).2 } : UdpUnit).effective with
+    | false => exact absurd (udpStep_not_effective s _ hv) h
+    | true =>
+      simp only [UdpUnit.effective, Bool.and_eq_true, decide_eq_true_eq, Bool.not_eq_true'] at hv
+      obtain ⟨⟨⟨⟨⟨_, _⟩, hdup⟩, hum⟩, _⟩, _⟩ := hv
+      exact ⟨Nat.le_of_not_lt ha, unmarshalOk_tsOk _ hum, trivial, hdup⟩
+
 end Mieru.Proofs.ServerReplay
